@@ -154,7 +154,8 @@ def run(ctx):
     # the `max().expect()` over visible possible values relies on use_long_pv
     ulp = fx.body("clap_builder::output::help_template::HelpTemplate::use_long_pv")
     anyc = ulp.calls_to(r"Iterator::any$")
-    okp = any(any(re.search(r"PossibleValue::should_show_help$", q) for q in c.fnitems) or any(cb.calls_to(r"PossibleValue::should_show_help$") for cb in closure_bodies(fx, c)) for c in anyc)
+    okp = any(any(re.search(r"PossibleValue::should_show_help$", q) for q in c.fnitems) or any(cb.calls_to(r"PossibleValue::should_show_help$") for cb in closure_bodies(fx, c)) for c in anyc) \
+        or true_only_if_exists(fx, ulp, r"get_possible_values\(arg\)", r"PossibleValue::should_show_help$")
     res.check(okp, "R12.1", "A-support|use_long_pv-any-visible", ulp.where(), "use_long_pv requires any(PossibleValue::should_show_help)",
               "use_long_pv no longer implies a visible possible value (help(): max().expect would panic)")
     ssh = fx.body("clap_builder::builder::possible_value::PossibleValue::should_show_help")
